@@ -533,6 +533,15 @@ class FunctionVC:
                 if d is None:
                     raise Unsupported('keyword-only parameter %s has no type in the contract' % p.arg)
                 I.env[p.arg] = I.eval(d)
+        if c.kind == 'K2' and not I.path.taken and not I.path.prefix:
+            # LINKING obligation K2 <-> K3: the emitted render code calls the helper with exactly the
+            # contract's parameters and the helper reads everything else (translate, decode, the i18n
+            # settings in force) from the enclosing render function AT CALL TIME.  A further parameter
+            # with a default would freeze that state when the helper is defined.
+            extra = [p for p in params + [k_.arg for k_ in a.kwonlyargs] if p not in c.params]
+            I.oblige('%s.signature' % self.qual, z3.BoolVal(not extra), 'struct',
+                     {'text': 'the helper takes exactly the parameters of its contract (%s); extra: %s'
+                              % (', '.join(c.params), ', '.join(extra) or 'none')})
         for i, p in enumerate(params):
             if p not in I.env:
                 di = i - (len(params) - nd)
